@@ -293,6 +293,7 @@ func checkC13(p *Prog, r *Report) {
 
 	ruleMacroBindAll(p, ma, r, "R-C13-BINDALL")
 	ruleC13LazyDefaults(p, ma, r)
+	ruleC13Self(p, a, ma, r)
 
 	r.Begin("R-C13-POS", "the i-th argument is bound to the i-th parameter name, after (so overriding) the defaults", 1)
 	update := p.Method("Context", "Update")
@@ -742,4 +743,40 @@ func isVariadicParamAny(v ssa.Value) bool {
 	}
 	_, isSlice := pa.Type().Underlying().(*types.Slice)
 	return isSlice
+}
+
+// ruleC13Self: a macro behaves the same however it was bound outside — locally, imported, imported under an alias.
+// Its body refers to the macro by the name it was defined with (recursion), so that name is bound in the body's own
+// context on every call; otherwise an aliased import silently renders the recursive call as nothing.
+func ruleC13Self(p *Prog, a *Anchors, ma *macroAnchors, r *Report) {
+	r.Begin("R-C13-SELF", "the macro's defined name is bound (to the macro) in the context its body runs in, on every call: recursion works the same for a local, an imported and an aliased macro", 1)
+	for _, f := range ma.bodies {
+		// the body execution: (*NodeWrapper).Execute on the macro's wrapper
+		for _, b := range f.Blocks {
+			for _, in := range b.Instrs {
+				ci, ok := in.(ssa.CallInstruction)
+				if !ok || ci.Common().StaticCallee() == nil || ci.Common().StaticCallee().Name() != "Execute" || len(ci.Common().Args) < 2 {
+					continue
+				}
+				if !loadsField(ci.Common().Args[0], "tagMacroNode", "wrapper") {
+					continue
+				}
+				ctxArg := ci.Common().Args[1]
+				key := p.FuncName(f) + ":self-name"
+				bound := MustPass(in, func(x ssa.Instruction) bool {
+					mu, ok := x.(*ssa.MapUpdate)
+					if !ok || !loadsField(stripConv(mu.Key), "tagMacroNode", "name") || !loadsField(mu.Map, "ExecutionContext", "Private") {
+						return false
+					}
+					base, _, _ := fieldLoadBase(mu.Map)
+					return base == ctxArg || p.VN(base) == p.VN(ctxArg)
+				})
+				if bound {
+					r.OK(key, p.InstrPos(in), "the defined name is bound in the body's context before the body runs")
+				} else {
+					r.Bad(key, p.InstrPos(in), "the body runs in a context in which the macro's own name is bound only if the caller happens to have it: {% import \"lib\" count as c %}{{ c(3) }} renders the recursive call count(n-1) as nothing (and an endless recursion through an alias meets no depth limit because it never happens)")
+				}
+			}
+		}
+	}
 }
